@@ -696,7 +696,7 @@ class Prover:
                 raise _Stop()
 
         try:
-            E.explore(run_path, on_result=on_result, max_paths=c.max_paths, max_seconds=(getattr(c, "explore_s", None) or 60) if self.tier == "quick" else 900)
+            E.explore(run_path, on_result=on_result, max_paths=c.max_paths, max_seconds=(getattr(c, "explore_s", None) or 60) if self.tier == "quick" else (getattr(c.spec, "explore_s_thorough", None) or 900))
         except _Stop:
             pass
         except E.Undecided as u:
